@@ -364,4 +364,7 @@ func runC03(r *run) {
 	// destination lists handed from logger to logger (GetWriter / GetWriterBy -> Set…), then Add / Remove on either side: the
 	// configuration of each logger is what its own sequence of calls denotes
 	c10WriterIsolation(r, &rng{s: r.seed*7919 + 3})
+	overlapDelivery(r.violate)
+	flakyNeighbour(r.violate)
+	customErrorDevices(r.violate)
 }
